@@ -90,6 +90,25 @@ pub fn units_for_row(name: &'static str, tier: Tier, seed: u64) -> Vec<Unit> {
     // ------------------------------------------------------------ shape V
     match src {
         Src::None => {
+            if thorough && dsz == Sz::L {
+                units.push(Unit::new(&format!("{}/Vfull32", name), 4096, "all 2^32 destination values x CCR in {00, ff} (complete)", move |ctx, chunk| {
+                    let f = default_fields(dsz, src);
+                    let code = ctx.isa.encode(row, &f);
+                    let mut c = sticky_code(ctx, dom::CODE_RAM, &code);
+                    let mut er = dom::background_regs();
+                    ctx.count_forms = false;
+                    let lo = (chunk as u32) << 20;
+                    for k in 0..(1u32 << 20) {
+                        set_r(&mut er, dsz, f.rd, lo | k);
+                        c.er = er;
+                        c.ccr = 0x00;
+                        ctx.run(&c);
+                        c.ccr = 0xff;
+                        ctx.run(&c);
+                    }
+                    ctx.count_forms = true;
+                }));
+            }
             let vals = all_vals(dsz, seed);
             let n = vals.len() as u64;
             let chunks = (n / 1024).clamp(1, 64);
@@ -113,6 +132,63 @@ pub fn units_for_row(name: &'static str, tier: Tier, seed: u64) -> Vec<Unit> {
         }
         Src::Reg(ssz) | Src::Imm(ssz) => {
             let is_imm = matches!(src, Src::Imm(_));
+            if thorough && ssz == Sz::L && dsz == Sz::L {
+                // every 32-bit value of one operand against four fixed values of the other, in both roles
+                units.push(Unit::new(&format!("{}/Vfull32", name), 4096, "all 2^32 values of one operand x the other operand in {1, 0x80000000, 0xffffffff, 0x00010000}, in both roles (immediate forms: all 2^32 destinations x 4 immediates, and all 2^20 x 2^12-strided immediates x 4 destinations) x CCR 00 (complete sweep of one operand)", move |ctx, chunk| {
+                    let mut f = default_fields(dsz, src);
+                    let base = dom::background_regs();
+                    ctx.count_forms = false;
+                    let fixed = [1u32, 0x8000_0000, 0xffff_ffff, 0x0001_0000];
+                    let lo = (chunk as u32) << 20;
+                    // role 1: source / immediate fixed, destination sweeps
+                    for &a in fixed.iter() {
+                        if is_imm {
+                            f.data = a;
+                        }
+                        let code = ctx.isa.encode(row, &f);
+                        let mut c = sticky_code(ctx, dom::CODE_RAM, &code);
+                        let mut er = base;
+                        if !is_imm {
+                            set_r(&mut er, ssz, f.rs, a);
+                        }
+                        c.ccr = 0;
+                        for k in 0..(1u32 << 20) {
+                            set_r(&mut er, dsz, f.rd, lo | k);
+                            c.er = er;
+                            ctx.run(&c);
+                        }
+                    }
+                    // role 2: destination fixed, source sweeps (register forms: all; immediate forms re-encode per value: stride 4096)
+                    if !is_imm {
+                        let code = ctx.isa.encode(row, &f);
+                        let mut c = sticky_code(ctx, dom::CODE_RAM, &code);
+                        c.ccr = 0;
+                        for &b in fixed.iter() {
+                            let mut er = base;
+                            set_r(&mut er, dsz, f.rd, b);
+                            for k in 0..(1u32 << 20) {
+                                set_r(&mut er, ssz, f.rs, lo | k);
+                                c.er = er;
+                                ctx.run(&c);
+                            }
+                        }
+                    } else {
+                        for k in (0..(1u32 << 20)).step_by(4096) {
+                            f.data = lo | k | (chunk as u32 & 0xfff);
+                            let code = ctx.isa.encode(row, &f);
+                            let mut c = sticky_code(ctx, dom::CODE_RAM, &code);
+                            c.ccr = 0;
+                            for &b in fixed.iter() {
+                                let mut er = base;
+                                set_r(&mut er, dsz, f.rd, b);
+                                c.er = er;
+                                ctx.run(&c);
+                            }
+                        }
+                    }
+                    ctx.count_forms = true;
+                }));
+            }
             let small = ssz == Sz::B && (dsz == Sz::B);
             if small {
                 // every pair x all 256 CCR
